@@ -13,23 +13,23 @@ open Gen (DExp SExp)
 /-! ### types.AddrMaybeId.CloserThan (statement tree; state = the `multiless.Computation` `ml`) -/
 
 def ctStep (target : Id) (l r : Cand) : String → ML → Option ML
-  | "ml := multiless.New().Bool(!l.Id.Ok, !r.Id.Ok)" => fun _ => some (ML.new.bool (!l.id.isSome) (!r.id.isSome))
-  | "ml = ml.Cmp(l.Id.Value.Distance(target).Cmp(r.Id.Value.Distance(target)))" => fun ml =>
+  | "$1 := multiless.New().Bool(!l.Id.Ok, !r.Id.Ok)" => fun _ => some (ML.new.bool (!l.id.isSome) (!r.id.isSome))
+  | "$1 = $1.Cmp(l.Id.Value.Distance(target).Cmp(r.Id.Value.Distance(target)))" => fun ml =>
     match l.id, r.id with
     | some li, some ri => some (ml.cmp (Id.cmp (Id.distance li target) (Id.distance ri target)))
     | _, _ => none
-  | "ml = ml.Cmp(l.Addr.Addr().Compare(r.Addr.Addr()))" => fun ml => some (ml.cmp (l.addr.cmpAddr r.addr))
-  | "ml = multiless.EagerOrdered(ml, l.Addr.Port(), r.Addr.Port())" => fun ml =>
+  | "$1 = $1.Cmp(l.Addr.Addr().Compare(r.Addr.Addr()))" => fun ml => some (ml.cmp (l.addr.cmpAddr r.addr))
+  | "$1 = multiless.EagerOrdered($1, l.Addr.Port(), r.Addr.Port())" => fun ml =>
     some (ml.eagerOrdered l.addr.port r.addr.port)
   | _ => fun _ => none
 
 def ctCond (l r : Cand) : String → ML → Option Bool
   | "l.Id.Ok && r.Id.Ok" => fun _ => some (l.id.isSome && r.id.isSome)
-  | "!ml.Ok()" => fun ml => some (!ml.ok)
+  | "!$1.Ok()" => fun ml => some (!ml.ok)
   | _ => fun _ => none
 
 def ctRet : String → ML → Option Bool
-  | "ml.Less()" => fun ml => some ml.less
+  | "$1.Less()" => fun ml => some ml.less
   | _ => fun _ => none
 
 /-- The model's address order is `netip.Addr.Compare` followed by the port comparison. -/
@@ -89,7 +89,7 @@ theorem SourceTrees.closerThan (target : Id) (l r : Cand) (ml0 : ML) :
 
 /-- Negative check: the distance comparison with its operands exchanged. Unknown statement: no value
 whenever both IDs are known. -/
-def stmCloserThanMutSwap : SExp := SExp.seq "ml := multiless.New().Bool(!l.Id.Ok, !r.Id.Ok)" (SExp.ite "l.Id.Ok && r.Id.Ok" (SExp.seq "ml = ml.Cmp(r.Id.Value.Distance(target).Cmp(l.Id.Value.Distance(target)))" (SExp.ite "!ml.Ok()" (SExp.seq "ml = ml.Cmp(l.Addr.Addr().Compare(r.Addr.Addr()))" (SExp.seq "ml = multiless.EagerOrdered(ml, l.Addr.Port(), r.Addr.Port())" (SExp.ret "ml.Less()"))) (SExp.ret "ml.Less()"))) (SExp.ite "!ml.Ok()" (SExp.seq "ml = ml.Cmp(l.Addr.Addr().Compare(r.Addr.Addr()))" (SExp.seq "ml = multiless.EagerOrdered(ml, l.Addr.Port(), r.Addr.Port())" (SExp.ret "ml.Less()"))) (SExp.ret "ml.Less()")))
+def stmCloserThanMutSwap : SExp := SExp.seq "$1 := multiless.New().Bool(!l.Id.Ok, !r.Id.Ok)" (SExp.ite "l.Id.Ok && r.Id.Ok" (SExp.seq "$1 = $1.Cmp(r.Id.Value.Distance(target).Cmp(l.Id.Value.Distance(target)))" (SExp.ite "!$1.Ok()" (SExp.seq "$1 = $1.Cmp(l.Addr.Addr().Compare(r.Addr.Addr()))" (SExp.seq "$1 = multiless.EagerOrdered($1, l.Addr.Port(), r.Addr.Port())" (SExp.ret "$1.Less()"))) (SExp.ret "$1.Less()"))) (SExp.ite "!$1.Ok()" (SExp.seq "$1 = $1.Cmp(l.Addr.Addr().Compare(r.Addr.Addr()))" (SExp.seq "$1 = multiless.EagerOrdered($1, l.Addr.Port(), r.Addr.Port())" (SExp.ret "$1.Less()"))) (SExp.ret "$1.Less()")))
 
 theorem SourceTrees.closerThan_mutSwap_none (target : Id) (l r : Cand) (ml0 : ML)
     (hl : l.id.isSome = true) (hr : r.id.isSome = true) :
@@ -105,7 +105,7 @@ example : ¬ ∀ (target : Id) (l r : Cand) (ml0 : ML),
 
 /-- Negative check with known atoms only: the port comparison dropped (both copies). The tree evaluates,
 but two candidates without ID at one IP and ports 1 < 2 are no longer ordered. -/
-def stmCloserThanMutNoPort : SExp := SExp.seq "ml := multiless.New().Bool(!l.Id.Ok, !r.Id.Ok)" (SExp.ite "l.Id.Ok && r.Id.Ok" (SExp.seq "ml = ml.Cmp(l.Id.Value.Distance(target).Cmp(r.Id.Value.Distance(target)))" (SExp.ite "!ml.Ok()" (SExp.seq "ml = ml.Cmp(l.Addr.Addr().Compare(r.Addr.Addr()))" (SExp.ret "ml.Less()")) (SExp.ret "ml.Less()"))) (SExp.ite "!ml.Ok()" (SExp.seq "ml = ml.Cmp(l.Addr.Addr().Compare(r.Addr.Addr()))" (SExp.ret "ml.Less()")) (SExp.ret "ml.Less()")))
+def stmCloserThanMutNoPort : SExp := SExp.seq "$1 := multiless.New().Bool(!l.Id.Ok, !r.Id.Ok)" (SExp.ite "l.Id.Ok && r.Id.Ok" (SExp.seq "$1 = $1.Cmp(l.Id.Value.Distance(target).Cmp(r.Id.Value.Distance(target)))" (SExp.ite "!$1.Ok()" (SExp.seq "$1 = $1.Cmp(l.Addr.Addr().Compare(r.Addr.Addr()))" (SExp.ret "$1.Less()")) (SExp.ret "$1.Less()"))) (SExp.ite "!$1.Ok()" (SExp.seq "$1 = $1.Cmp(l.Addr.Addr().Compare(r.Addr.Addr()))" (SExp.ret "$1.Less()")) (SExp.ret "$1.Less()")))
 
 example :
     SExp.evalWith (ctStep [0] ⟨none, ⟨1, [1, 2, 3, 4], 1⟩⟩ ⟨none, ⟨1, [1, 2, 3, 4], 2⟩⟩)
